@@ -209,6 +209,7 @@ class MCNP_Object(ABC):
             initial_indent=" " * initial_indent,
             subsequent_indent=" " * indent_length,
             drop_whitespace=False,
+            break_on_hyphens=False,
         )
         ret = []
         for line in strings:
